@@ -21,7 +21,7 @@ def validate(w, name, rows):
 def describe(e, b):
     o = e["ops"][b["at"] - 1]
     return "history %s fails at operation %d: clone calls at %s (%s), forms %s, observed %s" % (
-        [(x["op"], x["id"], x["a"], x["b"], x["rule"], x["ca"], x["attr"], x["asg"], x["k1"], x["k2"], x["u"]) for x in e["ops"][:b["at"]]], b["at"], o["sess"], o["how"], o["forms"], o["obs"])
+        [(x["op"], x["id"], x["a"], x["b"], x["rule"], x["ca"], x["attr"], x.get("attra"), x["asg"], x["k1"], x["k2"], x["u"]) for x in e["ops"][:b["at"]]], b["at"], o["sess"], o["how"], o["forms"], o["obs"])
 
 
 def run_one(w, vh, case, name):
